@@ -24,12 +24,29 @@ var Writers = []string{WriterMemFile, WriterMemBolt, WriterBig}
 
 // Build writes rows through the named writer to path. It checks that AddRow
 // returns ids 0,1,2,... and returns the ids' verdict as error text.
+// rowArg returns the map handed to AddRow for row i: the first half of the rows are passed as they are, the second
+// half through ONE scratch map that is cleared and refilled for every call (a caller may legitimately reuse its map
+// once AddRow has returned).
+func rowArg(scratch map[string]string, rows []oracle.Row, i int) map[string]string {
+	if i < len(rows)/2 {
+		return rows[i]
+	}
+	for k := range scratch {
+		delete(scratch, k)
+	}
+	for k, v := range rows[i] {
+		scratch[k] = v
+	}
+	return scratch
+}
+
 func Build(writer, path string, rows []oracle.Row) error {
+	scratch := map[string]string{}
 	switch writer {
 	case WriterMemFile, WriterMemBolt:
 		w := updog.NewIndexWriter(path)
-		for i, r := range rows {
-			id, err := w.AddRow(r)
+		for i := range rows {
+			id, err := w.AddRow(rowArg(scratch, rows, i))
 			if err != nil {
 				return fmt.Errorf("AddRow %d: %w", i, err)
 			}
@@ -68,8 +85,8 @@ func Build(writer, path string, rows []oracle.Row) error {
 		if err != nil {
 			return err
 		}
-		for i, r := range rows {
-			id, err := w.AddRow(r)
+		for i := range rows {
+			id, err := w.AddRow(rowArg(scratch, rows, i))
 			if err != nil {
 				_ = w.Close()
 				return fmt.Errorf("AddRow %d: %w", i, err)
